@@ -45,6 +45,8 @@ func (p *StubPeer) Get(k string) interface{} {
 type StubSwitch struct {
 	cmn.BaseService
 	Stopped int
+	// OnStopPeer, if set, is called when a reactor asks to stop a peer for error.
+	OnStopPeer func()
 }
 
 func NewStubSwitch() *StubSwitch {
@@ -55,15 +57,20 @@ func NewStubSwitch() *StubSwitch {
 
 type emptyPeerSet struct{}
 
-func (emptyPeerSet) HasID(string) bool                               { return false }
-func (emptyPeerSet) HasIP(string) bool                               { return false }
-func (emptyPeerSet) GetByID(string) p2p.Peer                         { return nil }
-func (emptyPeerSet) GetByIP(string) p2p.Peer                         { return nil }
-func (emptyPeerSet) List() []p2p.Peer                                { return nil }
-func (emptyPeerSet) Size() int                                       { return 0 }
-func closedChan() chan bool                                          { c := make(chan bool); close(c); return c }
-func (s *StubSwitch) GetByID(string) p2p.Peer                        { return nil }
-func (s *StubSwitch) StopPeerForError(p2p.Peer, interface{})         { s.Stopped++ }
+func (emptyPeerSet) HasID(string) bool        { return false }
+func (emptyPeerSet) HasIP(string) bool        { return false }
+func (emptyPeerSet) GetByID(string) p2p.Peer  { return nil }
+func (emptyPeerSet) GetByIP(string) p2p.Peer  { return nil }
+func (emptyPeerSet) List() []p2p.Peer         { return nil }
+func (emptyPeerSet) Size() int                { return 0 }
+func closedChan() chan bool                   { c := make(chan bool); close(c); return c }
+func (s *StubSwitch) GetByID(string) p2p.Peer { return nil }
+func (s *StubSwitch) StopPeerForError(p2p.Peer, interface{}) {
+	s.Stopped++
+	if s.OnStopPeer != nil {
+		s.OnStopPeer()
+	}
+}
 func (s *StubSwitch) Reactor(string) p2p.Reactor                     { return nil }
 func (s *StubSwitch) AddReactor(n string, r p2p.Reactor) p2p.Reactor { return r }
 func (s *StubSwitch) Broadcast(byte, []byte) chan bool               { return closedChan() }
